@@ -1660,7 +1660,6 @@ namespace bloch::compiler {
                                  "'@shots(N)' can only decorate the main() function.");
             }
         }
-        declare(node.name, node.isFinal, tinfo);
         if (auto arr = dynamic_cast<ArrayType*>(node.varType.get())) {
             bool hasExplicitSize = arr->size >= 0 || arr->sizeExpression != nullptr;
             if (arr->sizeExpression) {
@@ -1692,9 +1691,12 @@ namespace bloch::compiler {
             throw BlochError(ErrorCategory::Semantic, node.line, node.column,
                              "final variable '" + node.name + "' must be initialised");
         }
+        // The initialiser is checked before the name exists: 'int w = w;' does not refer to itself
+        // (the evaluator, too, computes the initialiser first).
         if (node.initializer)
             validateTypedInitializer(node.name, node.varType.get(), node.initializer.get(),
                                      node.line, node.column);
+        declare(node.name, node.isFinal, tinfo);
         if (node.isFinal) {
             if (auto prim = dynamic_cast<PrimitiveType*>(node.varType.get())) {
                 if (prim->name == "int" && node.initializer) {
